@@ -41,10 +41,17 @@ func nameForms(name string) []string {
 	return []string{name, lowerFirst(name), strings.ToLower(name)}
 }
 
-var embInner = map[string][]string{
-	"EmbA": {"Ea", "Eb"},
-	"EmbT": {"Ec", "Ed", "Ee"},
-}
+// embInner lists the fields of the embedded struct types, read from the types
+// themselves so that the table follows internal/gens.
+var embInner = func() map[string][]string {
+	out := map[string][]string{}
+	for _, t := range []reflect.Type{reflect.TypeOf(gens.EmbA{}), reflect.TypeOf(gens.EmbT{})} {
+		for i := 0; i < t.NumField(); i++ {
+			out[t.Name()] = append(out[t.Name()], t.Field(i).Name)
+		}
+	}
+	return out
+}()
 
 func newTypeInfo(spec gens.StructSpec) *typeInfo {
 	ti := &typeInfo{spec: spec, typ: spec.Type(), cand: map[string]int{}}
